@@ -322,6 +322,16 @@ def index_num(ex, base: Num, idx, node):
     comp = _compose_index(ex, base, parts, res_shape, node)
     if comp is not None:
         return comp
+    ar = base.meta.get("arange")
+    if ar is None and base.nf is not None:
+        a0 = single_atom(base.nf)
+        if a0 is not None and a0.kind == "app" and a0.args[0] == "arange":
+            ar = (a0.args[1], a0.args[2], NF.const(1))
+    if ar is not None and ar[2].as_const() == 1 and len(parts) >= 1 and isinstance(parts[0], tuple) and parts[0][0] == "at" and all(p == "full" or (isinstance(p, tuple) and p[0] == "at" and p[1].as_const() == 0) for p in parts[1:]):
+        # element i of arange(lo, hi) is lo + i
+        r = Num(ar[0] + parts[0][1], res_shape, "int")
+        r.meta["arange_elem"] = (ar, parts[0][1])
+        return r
     key = tuple(_pkey(p) for p in parts)
     r = ex.mk("idx", ex.cur_nf(base), key, shape=res_shape, dtype=base.dtype)
     r.meta["index_of"] = base
